@@ -55,7 +55,8 @@ func (c *Conversation) receiveUnit(m ValidMessage, forgetFragments bool) (plain 
 }
 
 func (c *Conversation) receiveWithoutOTR(message ValidMessage) (MessagePlaintext, []ValidMessage, error) {
-	return MessagePlaintext(message), nil, nil
+	// the caller wipes message when it returns
+	return MessagePlaintext(makeCopy(message)), nil, nil
 }
 
 func withoutPotentialSpaceStart(msg []byte) []byte {
